@@ -72,6 +72,17 @@ func (e *Exec) strBinop(op token.Token, x, y *StrV) Value {
 			return cbool(a >= b)
 		}
 	}
+	if (op == token.EQL || op == token.NEQ) && (len(x.Alts) > 0 && y.C != nil || len(y.Alts) > 0 && x.C != nil) {
+		a, c := x, y
+		if len(y.Alts) > 0 {
+			a, c = y, x
+		}
+		r := altsBool(a, func(s string) bool { return s == *c.C })
+		if op == token.NEQ {
+			r = bnot(r)
+		}
+		return r
+	}
 	switch op {
 	case token.EQL:
 		return &BoolV{T: "(= " + x.T + " " + y.T + ")"}
